@@ -15,7 +15,8 @@ class Report(object):
         self.known_hits = {}
         self.inconclusive = []
         self.skipped = []
-        self.stats = dict(queries=0, sat=0, unsat=0, unknown=0, solver_s=0.0, paths=0, mir_statements=0)
+        self.stats = dict(queries=0, sat=0, unsat=0, unknown=0, solver_s=0.0, paths=0, mir_statements=0,
+                          xcheck_sampled=0, xcheck_agree=0, xcheck_other_unknown=0, xcheck_disagree=0)
         self.functions = {}
         self.stubs = {}
         self.replays = 0
@@ -31,6 +32,7 @@ class Report(object):
         for k, v in (r.get('stubs') or {}).items():
             self.stubs[k] = self.stubs.get(k, 0) + v
         tag = '%s[%s%s]' % (r.get('program'), r.get('mode'), ('/' + '+'.join(r['backends'])) if r.get('backends') else '')
+
         if r.get('status') == 'error':
             self.inconclusive.append('%s: machinery error: %s' % (tag, (r.get('notes') or [''])[0][:300]))
             return False
@@ -60,6 +62,8 @@ class Report(object):
             p = common.save_replay(self.pid, i, v)
             print('VIOLATION property=%s replay=%s' % (self.pid, p))
             common.log('  ' + str({k: v[k] for k in v if k not in ('replay', 'model')})[:400])
+        if self.stats.get('xcheck_disagree'):
+            self.machinery_errors.append('SOLVER-DISAGREEMENT property=%s: %d `unsat` verdict(s) of z3 were answered `sat` by cvc5 or z3 4.8.12 (queries kept under /tmp)' % (self.pid, self.stats['xcheck_disagree']))
         inconc = sorted(set(self.inconclusive))
         loss, gap_keys = common.coverage_gate(self.pid, self.tier, inconc)
         for ln in loss:
